@@ -264,6 +264,106 @@ def tsan_stage(check_id, st, seed, work, spec, log):
     return out
 
 
+def asan_stage(check_id, st, seed, work, spec, log):
+    """The regular worker of the check built with AddressSanitizer (Rust code
+    instrumented; OpenSSL and libc are covered through ASan's allocator and
+    its interceptors): heap overflows, use after free and double frees on the
+    paths the hostile-input workload reaches. Leak detection is off (the
+    workers end with process::exit)."""
+    out = {"counters": {}, "distinct": {}, "violations": [],
+           "inconclusive": [], "samples": [], "reports": []}
+    tdir = f"{VERIF}/.target-asan"
+    os.makedirs(tdir, exist_ok=True)
+    os.makedirs(work, exist_ok=True)
+    env = dict(os.environ, CARGO_NET_OFFLINE="true", CARGO_TARGET_DIR=tdir,
+               RUSTFLAGS="-Zsanitizer=address -Cforce-frame-pointers=yes")
+    cmd = ["cargo", "+nightly", "build", "--target", TARGET_TRIPLE,
+           "--release", "--offline", "--bin", spec["bin"]]
+    with open(f"{tdir}/.build.lock", "w") as lock:
+        fcntl.flock(lock, fcntl.LOCK_EX)
+        rc, dt = _run(cmd, env, HARNESS, 5400, f"{work}/build.log")
+    out["build_s"] = round(dt, 1)
+    binp = f"{tdir}/{TARGET_TRIPLE}/release/{spec['bin']}"
+    if rc != 0 or not os.path.exists(binp):
+        tail = "".join(open(f"{work}/build.log").readlines()[-15:])
+        out["inconclusive"].append(
+            f"asan stage: the AddressSanitizer build failed (rc={rc}); not a "
+            f"verdict on the property: {tail[-600:]}")
+        return out
+
+    def shard(i):
+        w = f"{work}/{i}"
+        shutil.rmtree(w, ignore_errors=True)
+        os.makedirs(w)
+        cmd = [binp, "--seed", str(seed + 104729), "--tier", "quick",
+               "--shard", str(i), "--nshards", str(st["shards"]),
+               "--work", w, "--out", f"{w}/report.json",
+               "--budget", str(st["budget_s"])]
+        for k, v in spec.get("args", {}).get("quick", {}).items():
+            cmd += [f"--{k}", str(v)]
+        e = dict(os.environ)
+        e.update(spec.get("env", {}))
+        e["ASAN_OPTIONS"] = (f"detect_leaks=0:halt_on_error=1:exitcode=66:"
+                             f"log_path={w}/asan:allocator_may_return_null=1:"
+                             f"detect_stack_use_after_return=0")
+        e["KVH_REPLAY_DIR"] = os.environ.get("KVH_REPLAY_DIR",
+                                             f"{VERIF}/replays")
+        rc, dt = _run(cmd, e, w, st["budget_s"] * 5 + 300, f"{w}/worker.log")
+        return i, rc, dt, w
+
+    with ThreadPoolExecutor(max_workers=st["shards"]) as ex:
+        results = list(ex.map(shard, range(st["shards"])))
+    ok_shards = 0
+    seen = set()
+    for i, rc, dt, w in results:
+        got = _merge_report(f"{w}/report.json", out)
+        if rc is None:
+            out["inconclusive"].append(f"asan shard {i}: timed out")
+        elif got and rc == 0:
+            ok_shards += 1
+        elif not got:
+            out["inconclusive"].append(
+                f"asan shard {i}: worker ended rc={rc} without a report "
+                f"(log {w}/worker.log)")
+        # reports of the worker and of every child process it started
+        logs = []
+        for root, _dirs, files in os.walk(w):
+            logs += [os.path.join(root, f) for f in files
+                     if f.startswith("asan.")]
+        for f in sorted(logs):
+            text = open(f, errors="replace").read()
+            m = re.search(r"ERROR: AddressSanitizer: ([\w-]+)", text)
+            if not m:
+                continue
+            what = m.group(1)
+            frames = re.findall(r"(/repo/src/[\w/.-]+\.rs):\d+", text)
+            frames = [x.replace("/repo/", "") for x in frames]
+            other = re.findall(r" in (\S+) ", text)[:3]
+            key = (what, tuple(frames[:2]), tuple(other[:2]))
+            if key in seen:
+                continue
+            seen.add(key)
+            out["reports"].append({"shard": i, "what": what,
+                                   "krill_frames": frames[:4],
+                                   "first_symbols": other})
+            if what in ("requested-allocation-size-exceeds-maximum",
+                        "allocation-size-too-big", "out-of-memory",
+                        "stack-overflow"):
+                # resource exhaustion, not a memory-safety error: the
+                # worker's own monitor judges aborts of request processing
+                out["inconclusive"].append(
+                    f"asan shard {i}: {what} (log {f})")
+                continue
+            where = frames[0] if frames else (other[0] if other else "?")
+            out["violations"].append({
+                "signature": f"asan:{what}:{where}",
+                "detail": f"AddressSanitizer: {what}; krill frames "
+                          f"{frames[:4]}; first symbols {other}",
+                "replay": f})
+    out["ok_shards"] = ok_shards
+    return out
+
+
 def run_stages(check_id, spec, tier, seed, work_root, log):
     """Runs the stages registered for this tier; returns a list of
     (stage description, result dict)."""
@@ -280,6 +380,8 @@ def run_stages(check_id, spec, tier, seed, work_root, log):
             f"({st['shards']} shards x {st['budget_s']} s)")
         if st["kind"] == "miri":
             out = miri_stage(check_id, st, seed, work, log)
+        elif st["kind"] == "asan":
+            out = asan_stage(check_id, st, seed, work, spec, log)
         else:
             out = tsan_stage(check_id, st, seed, work, spec, log)
         out["wall_s"] = round(time.time() - t0, 1)
